@@ -11,9 +11,15 @@
   STAR n mid nq gate*nq         -> routed list "|" l2p "#" guards of the generated actions on the star graph (or ERR)
   PICK nin gate*nin nout gate*nout -> 0/1
   DAG m (k q1..qk)*m            -> edge list
+  BLOCKS n fuse nq gate*nq      -> `block_decomposition`: ERR | blocks "qa qb | id tag meas k qs , ..." joined by " ; "
+                                   "#" pickCheck(split queue, flattened blocks)
+  PREV nq gate*nq k q1..qk      -> ids selected by `_find_previous_gates`
+  SUCC nq gate*nq k q1..qk      -> ids selected by `_find_successive_gates`
+  ONQ  nq gate*nq q             -> ids selected by `_gates_on_qubit`
 -/
 import QV.Model.Router
-open QV.Router
+import QV.Model.Blocks
+open QV.Router QV.Blocks
 
 structure Rd where
   toks : Array String
@@ -120,6 +126,31 @@ def handle : P String := do
       ps := (← nextNats k) :: ps
     let es := dagEdges 0 ps.reverse
     pure (" ".intercalate (es.map fun (a, b) => s!"{a} {b}"))
+  | "BLOCKS" =>
+    let n ← nextNat
+    let fuse ← nextNat
+    let q ← nextGates
+    match blockDecomposition n (fuse == 1) q with
+    | none => pure "ERR"
+    | some bs =>
+      let showIG := fun (g : IG) => s!"{g.1} {showGate g.2}"
+      let showB := fun (b : Block) =>
+        s!"{showNats b.sortedQubits} | {" , ".intercalate (b.gates.map showIG)}"
+      pure s!"{" ; ".intercalate (bs.map showB)} # {bit (pickCheck (splitMeas q) (flatGates bs))}"
+  | "PREV" =>
+    let q ← nextGates
+    let k ← nextNat
+    let qs ← nextNats k
+    pure (showNats ((findPrev (withIds q) qs).map Prod.fst))
+  | "SUCC" =>
+    let q ← nextGates
+    let k ← nextNat
+    let qs ← nextNats k
+    pure (showNats ((findSucc (withIds q) qs).map Prod.fst))
+  | "ONQ" =>
+    let q ← nextGates
+    let x ← nextNat
+    pure (showNats ((gatesOn (withIds q) x).map Prod.fst))
   | "" => pure ""
   | c => pure s!"bad-op {c}"
 
